@@ -603,3 +603,54 @@ func (x *Exec) materializeEq(s *State, sel *Term, v *Term) {
 		}
 	}
 }
+
+// replaceTerm replaces every occurrence of the term `from` held in cells, registers and the heap by `to`.
+func (x *Exec) replaceTerm(s *State, from, to *Term) {
+	memo := map[int]*Term{}
+	var rep func(t *Term) *Term
+	rep = func(t *Term) *Term {
+		if t == from {
+			return to
+		}
+		if t.K != KApp {
+			return t
+		}
+		if r, ok := memo[t.id]; ok {
+			return r
+		}
+		changed := false
+		na := make([]*Term, len(t.Args))
+		for i, a := range t.Args {
+			na[i] = rep(a)
+			if na[i] != a {
+				changed = true
+			}
+		}
+		r := t
+		if changed {
+			r = rebuild(t, na)
+		}
+		memo[t.id] = r
+		return r
+	}
+	for c, v := range s.cellVal {
+		if v.Term != nil {
+			nv := v
+			nv.Term = rep(v.Term)
+			s.cellVal[c] = nv
+		}
+	}
+	for k, h := range s.heap {
+		s.heap[k] = rep(h)
+	}
+	for _, f := range s.frames {
+		for k, v := range f.vals {
+			if v.Term != nil {
+				if nt := rep(v.Term); nt != v.Term {
+					v.Term = nt
+					f.vals[k] = v
+				}
+			}
+		}
+	}
+}
